@@ -22,6 +22,8 @@ RULE = (
     "generator / class; up to 15 operations from {advance the groupby, advance group handle i (ANY previously "
     "returned group, also stale ones), close a stale group}. Every operation is mirrored on itertools.groupby over the same data; "
     "after each one the returned key, the returned item (identity) or the stop must be the same. "
+    "Keys may also be equal across types (1, 1.0, True, Fraction(2) / 2.0) with or without key function; the long-runs "
+    "shard uses runs of 1100-2300 equal keys that are skipped or only partly consumed. "
     "Non-trivial: the history advances a stale group, or advances the groupby while the current group is only "
     "partly consumed (and the input has >= 3 items)."
 )
@@ -38,7 +40,14 @@ def histories(draw, tier):
     if key is not None and draw(st.integers(0, 4)) == 0:
         # keys whose equality is reflexive and symmetric but NOT transitive (tolerance keys)
         key = [["T", k[1]] for k in draw(st.lists(st.integers(0, 4).map(lambda n: ["i", n]), min_size=2, max_size=5))]
-    if key is None and items and draw(st.integers(0, 3)) == 0:
+    mixed = [["i", 1], ["f", 1.0], ["b", True], ["i", 0], ["f", 0.0], ["b", False], ["i", 2], ["f", 2.0], ["F", 2, 1]]
+    if key is not None and key[0][0] != "T" and draw(st.integers(0, 3)) == 0:
+        # keys that are EQUAL although their types differ (1 == 1.0 == True): one run, keyed by its first key
+        key = draw(st.lists(st.sampled_from(mixed), min_size=2, max_size=5))
+    elif key is None and items and draw(st.integers(0, 4)) == 0:
+        # ... also when the items are their own keys
+        items = draw(st.lists(st.sampled_from(mixed), min_size=3, max_size=10))
+    if key is None and items and items[0][0] == "I" and draw(st.integers(0, 3)) == 0:
         # without a key function the items are their own keys - also when an item happens to be awaitable
         for pos in draw(st.lists(st.integers(0, len(items) - 1), min_size=1, max_size=3)):
             items[pos] = uids.fix(("AW",))
@@ -142,6 +151,25 @@ def check(case):
             "labels": {k: 1 for k, v in flags.items() if v}}
 
 
+@st.composite
+def long_run_histories(draw, tier):
+    """runs far longer than any plausible recursion / buffering threshold, skipped or only partly consumed"""
+    runs = draw(st.lists(st.sampled_from([1, 3, 1100, 1100, 2300]), min_size=2, max_size=4))
+    items, uid = [], 0
+    for r, length in enumerate(runs):
+        for _ in range(length):
+            items.append(["I", r % 3 if len(runs) > 3 else r, uid])
+            uid += 1
+    ops = []
+    for _ in range(len(runs) + 1):
+        ops.append(["gb"])
+        for _ in range(draw(st.sampled_from([0, 0, 1, 2]))):
+            ops.append(["group", draw(st.integers(0, 6))])
+    return {"items": items, "key": None, "keyfl": "def", "fl": draw(st.sampled_from(["list", "iter", "agen", "aclass"])),
+            "ops": ops}
+
+
 def shards(tier):
-    return [Shard(f"histories-{i}", check, strategy=histories(tier), n=1500, nontrivial=lambda c: False,
+    return [Shard("long-runs", check, strategy=long_run_histories(tier), n=40, nontrivial=lambda c: False,
+                  thorough_mult=10)] + [Shard(f"histories-{i}", check, strategy=histories(tier), n=1500, nontrivial=lambda c: False,
                   thorough_mult=25) for i in range(8)]
